@@ -324,7 +324,7 @@ class CGraph:
             if x.ndim != 1:
                 raise ValueError("x.ndim must be 1 but provided %d"%x.ndim)
                 
-            M = self.dependentFunctionList[0].size
+            M = numpy.size(self.dependentFunctionList[0].x)    # (the recorded value may be a Python float)
 
             D,P = x.data.shape[:2]
             shp = x.shape
@@ -357,7 +357,7 @@ class CGraph:
             if x.ndim != 1:
                 raise ValueError("x.ndim must be 1 but provided %d"%x.ndim)
 
-            M = self.dependentFunctionList[0].size
+            M = numpy.size(self.dependentFunctionList[0].x)    # (the recorded value may be a Python float)
 
             tmp = numpy.zeros((1,M) + numpy.shape(x))
             tmp[0,...] = x
@@ -404,7 +404,7 @@ class CGraph:
             raise ValueError("x.shape must be the same as v.shape but provided x.shape=%s, v.shape=%s "%(x.shape, v.shape))
 
 
-        N = self.independentFunctionList[0].size
+        N = numpy.size(self.independentFunctionList[0].x)    # (the recorded value may be a Python list)
 
         tmp = numpy.zeros((2,1) + numpy.shape(x))
         tmp[0,...] = x
@@ -443,7 +443,7 @@ class CGraph:
         if w.ndim != 1:
             raise ValueError("w.ndim must be 1 but provided %d"%w.ndim)
 
-        M = self.dependentFunctionList[0].size
+        M = numpy.size(self.dependentFunctionList[0].x)    # (the recorded value may be a Python float)
 
         tmp = numpy.zeros((1,1) + numpy.shape(x))
         tmp[0,...] = x
